@@ -376,7 +376,21 @@ func cancelPairing(c *Ctx) {
 // reloadedAfter: between every A-instruction and `site` there is a read of the stream section.
 func reloadedAfter(c *Ctx, f *ssa.Function, isA func(ssa.Instruction) bool, site ssa.Instruction) bool {
 	isRead := callReaching(c, f, func(e ir.Effect) bool { return e.Kind == "StoreRead" && e.Section == secStreams })
+	isW := func(e ir.Effect) bool { return (e.Kind == "StoreWrite" || e.Kind == "StoreDelete") && e.Section == secStreams }
+	isR := func(e ir.Effect) bool { return e.Kind == "StoreRead" && e.Section == secStreams }
 	for _, a := range findInstrs(f, isA) {
+		// a helper that settles and then re-reads the stream (handing the fresh record back) is its own reload
+		if call, ok := a.(ssa.CallInstruction); ok && isRead(a) {
+			fresh := len(c.W.CalleesOf(call)) > 0
+			for _, g := range c.W.CalleesOf(call) {
+				if !endsFresh(c, g, isW, isR, map[*ssa.Function]bool{}) {
+					fresh = false
+				}
+			}
+			if fresh {
+				continue
+			}
+		}
 		if ir.ReachesFrom(f, a.Block(), ir.InstrIndex(a)+1, site, ir.Cut{Barrier: func(in ssa.Instruction) bool { return in != a && isRead(in) && !isA(in) }}) {
 			return false
 		}
@@ -418,8 +432,19 @@ func affineSplit(c *Ctx, name string, inputIdx int) {
 	isZeroCoin := func(e *ir.Expr) bool {
 		return calleeIs(e, "types.NewCoin") && len(e.Args) == 2 && (isZeroInt(e.Args[1]))
 	}
+	// values built by small helpers of the same package (zeroCoin(denom)) are looked into
+	inl := func(e *ir.Expr) *ir.Expr {
+		for i := 0; i < 3 && e != nil && e.Op == "call" && e.Callee != nil && ir.FnPkg(e.Callee) == ir.FnPkg(f); i++ {
+			x := w.Inline(e)
+			if x == nil {
+				break
+			}
+			e = x
+		}
+		return e
+	}
 	for i, p := range pairs {
-		a, b := p.a, p.b
+		a, b := inl(p.a), inl(p.b)
 		ok := false
 		switch {
 		case a.String() == in && isZeroCoin(b), b.String() == in && isZeroCoin(a):
@@ -450,6 +475,35 @@ func C11(c *Ctx) {
 			q.Pol = !q.Pol
 			return depositPositive(c)(q)
 		}, 0)
+	}
+	// "the outstanding flow was settled" = the claim step ran: it is the step that sets LastOutflowTime to the block
+	// time. Orderings are asked on the flat view (the settlement may be reached through a helper that decides
+	// whether there is anything to settle), with the deposit-is-zero edges deleted in every call context.
+	settled := func(in ssa.Instruction) bool {
+		st, ok := in.(*ssa.Store)
+		if !ok {
+			return false
+		}
+		fa, ok := st.Addr.(*ssa.FieldAddr)
+		return ok && fieldAddrName(fa) == "LastOutflowTime" && isBlockTime(w.ExprOf(st.Val))
+	}
+	noDepositM := func(pr ir.Pred) bool {
+		q := pr
+		q.Pol = !q.Pol
+		return depositPositive(c)(q)
+	}
+	settledBefore := func(f *ssa.Function, site ssa.Instruction, extra map[[2]int]bool) bool {
+		root := w.FlatRoot(f)
+		cut := &ir.FlatCut{Matcher: noDepositM, Barrier: func(_ *ir.FCtx, in ssa.Instruction) bool { return settled(in) }}
+		if extra != nil {
+			cut.Edges = func(ctx *ir.FCtx) map[[2]int]bool {
+				if ctx == root {
+					return extra
+				}
+				return nil
+			}
+		}
+		return w.FlatReaches(root, nil, cut, func(p ir.FPos) bool { return p.Ctx == root && p.In == site }) == nil
 	}
 	isClaimIn := func(f *ssa.Function) func(ssa.Instruction) bool {
 		return callReaching(c, f, func(e ir.Effect) bool { return e.Method == "SendCoinsFromModuleToModule" })
@@ -485,7 +539,7 @@ func C11(c *Ctx) {
 			}
 			if fr.Op == "param" && !creating {
 				n++
-				r.Require(ir.Precedes(f, isClaimIn(f), s, noDeposit(f)), "A3.settle-before-change", "flow-rate|"+fn(f), pos(c, s), "a new flow rate is stored only after outstanding flow was settled at the old rate (whenever the deposit is positive)", "the store is reachable with a positive deposit and no settlement")
+				r.Require(settledBefore(f, s, nil), "A3.settle-before-change", "flow-rate|"+fn(f), pos(c, s), "a new flow rate is stored only after outstanding flow was settled at the old rate (whenever the deposit is positive)", "the store is reachable with a positive deposit and no settlement")
 				// and the stored DepositZeroTime is recomputed from the reloaded deposit
 				zt := fieldOfStruct(st, "DepositZeroTime")
 				r.Require(zt != nil && zt.Any(func(x *ir.Expr) bool { return calleeIs(x, "types.CalculateDuration") }), "A3.settle-before-change", "flow-rate-zero-time|"+fn(f), pos(c, s), "the deposit-zero time is recomputed from the settled remainder and the new rate", fmt.Sprint(zt))
@@ -537,7 +591,7 @@ func C11(c *Ctx) {
 		}, 0) {
 			cut[k] = true
 		}
-		r.Require(ir.Precedes(f, isClaimIn(f), send.Site, cut), "A3.settle-before-change", "topup-expired|"+fn(f), pos(c, send.Site), "topping up an expired stream with a positive deposit first settles the remainder to the receiver", "the transfer is reachable for an expired, funded stream without settlement")
+		r.Require(settledBefore(f, send.Site, cut), "A3.settle-before-change", "topup-expired|"+fn(f), pos(c, send.Site), "topping up an expired stream with a positive deposit first settles the remainder to the receiver", "the transfer is reachable for an expired, funded stream without settlement")
 	}
 	// cancel: covered structurally in C10 (claim<refund); repeated here as the C11 clause
 	for _, f := range w.Funcs {
@@ -547,7 +601,7 @@ func C11(c *Ctx) {
 		dels := findInstrs(f, callReaching(c, f, func(e ir.Effect) bool { return e.Kind == "StoreDelete" && e.Section == secStreams }))
 		for _, e := range w.EffectsOf(f) {
 			if e.Method == "SendCoinsFromModuleToAccount" && len(dels) > 0 {
-				r.Require(ir.Precedes(f, isClaimIn(f), e.Site, noDeposit(f)), "A3.settle-before-change", "cancel|"+fn(f), pos(c, e.Site), "a cancel settles outstanding flow before refunding", "refund reachable without settlement")
+				r.Require(settledBefore(f, e.Site, nil), "A3.settle-before-change", "cancel|"+fn(f), pos(c, e.Site), "a cancel settles outstanding flow before refunding", "refund reachable without settlement")
 			}
 		}
 	}
@@ -599,34 +653,24 @@ func floorDivision(c *Ctx) {
 func restartResetsOutflow(c *Ctx, isClaimIn func(*ssa.Function) func(ssa.Instruction) bool) {
 	w, r := c.W, c.R
 	n := 0
+	// asked on the flat view: the settlement may be reached through a helper that skips it for an empty stream,
+	// so "a call that may claim" is not enough — the reset itself (LastOutflowTime := block time, in the claim
+	// step or directly) must lie on the path
+	reset := func(_ *ir.FCtx, in ssa.Instruction) bool {
+		st, ok := in.(*ssa.Store)
+		if !ok {
+			return false
+		}
+		fa, ok := st.Addr.(*ssa.FieldAddr)
+		if !ok || fieldAddrName(fa) != "LastOutflowTime" {
+			return false
+		}
+		return isBlockTime(w.ExprOf(st.Val))
+	}
+	isWrite := directSites(c, func(e ir.Effect) bool { return e.Kind == "StoreWrite" && e.Section == secStreams })
 	for _, f := range w.Funcs {
 		if ir.ModuleOf(f) != "stream" || !c.Rooted(f) || w.IsGenerated(f) || w.IsRoot(f) || ir.IsFixture(f) {
 			continue
-		}
-		isSet := callReaching(c, f, func(e ir.Effect) bool { return e.Kind == "StoreWrite" && e.Section == secStreams })
-		claim := isClaimIn(f)
-		var writers []ssa.Instruction
-		for _, s := range findInstrs(f, isSet) {
-			if !claim(s) {
-				writers = append(writers, s)
-			}
-		}
-		if len(writers) == 0 {
-			continue
-		}
-		reset := func(in ssa.Instruction) bool {
-			if claim(in) {
-				return true
-			}
-			st, ok := in.(*ssa.Store)
-			if !ok {
-				return false
-			}
-			fa, ok := st.Addr.(*ssa.FieldAddr)
-			if !ok || fieldAddrName(fa) != "LastOutflowTime" {
-				return false
-			}
-			return isBlockTime(w.ExprOf(st.Val))
 		}
 		for _, b := range f.Blocks {
 			for _, in := range b.Instrs {
@@ -634,17 +678,21 @@ func restartResetsOutflow(c *Ctx, isClaimIn func(*ssa.Function) func(ssa.Instruc
 				if !ok {
 					continue
 				}
+				// block time + duration, computed here or by a small helper (extendBySeconds(now, n))
 				e := w.ExprOf(call)
+				if !calleeIs(e, "time.Time).Add") {
+					e = w.Expand(e, 2)
+				}
 				if !(calleeIs(e, "time.Time).Add") && len(e.Args) == 2 && isBlockTime(e.Args[0])) {
 					continue
 				}
 				n++
+				root := w.FlatRoot(f)
+				site := in
 				bad := ""
-				if ir.ReachesFrom(f, f.Blocks[0], 0, in, ir.Cut{Barrier: reset}) {
-					for _, wr := range writers {
-						if ir.ReachesFrom(f, in.Block(), ir.InstrIndex(in)+1, wr, ir.Cut{Barrier: reset}) {
-							bad = "the stream is stored at " + w.InstrPos(wr) + " with a deposit-zero time counted from now, on a path with neither a settlement nor LastOutflowTime = block time"
-						}
+				if occ := w.FlatReaches(root, nil, &ir.FlatCut{Barrier: reset}, func(p ir.FPos) bool { return p.Ctx == root && p.In == site }); occ != nil {
+					if wr := w.FlatReaches(root, occ, &ir.FlatCut{Barrier: reset}, func(p ir.FPos) bool { return isWrite(p.In) }); wr != nil {
+						bad = "the stream is stored at " + w.InstrPos(wr.In) + " with a deposit-zero time counted from now, on a path with neither a settlement nor LastOutflowTime = block time"
 					}
 				}
 				r.Require(bad == "", "A3.restart-resets-outflow", fn(f)+"|"+fmt.Sprint(n), pos(c, in), "a schedule restarted from the block time (DepositZeroTime = now + duration) also restarts LastOutflowTime at the block time", bad)
@@ -700,6 +748,12 @@ func elapsedSeconds(c *Ctx) {
 			n++
 			if calleeIs(sec, "NewInt") && len(sec.Args) == 1 {
 				sec = sec.Args[0]
+			}
+			// the seconds may be computed by a helper of the same package (wholeSecondsBetween(last, now)): look inside
+			if se := stripConvE(sec); se.Op == "call" && se.Callee != nil && ir.FnPkg(se.Callee) == ir.FnPkg(f) {
+				if x := w.Inline(se); x != nil {
+					sec = x
+				}
 			}
 			ok2 := true
 			seen := false
